@@ -52,7 +52,8 @@ fn build_inner(f: &Facts, mode: Mode) -> Result<Ontology, String> {
 /// `add_parent` the same call with the parent, then with the child, replaced by an absent term id; after
 /// every `annotate_*` the same call (same record, then a record id used nowhere else) with an absent term id.
 /// Every such call must return an error; the caller compares the result with the model of the valid facts alone.
-/// Err("accepted: ...") when a call naming an absent term returns Ok.
+/// What a call naming an absent term returns is not judged here (C15 does): it only must not change what the valid
+/// calls build.
 pub fn build_with_rejected(f: &Facts, mode: Mode, absent: &[u32]) -> Result<Ontology, String> {
     match guard(|| build_rejected_inner(f, mode, absent)) {
         Ok(r) => r,
@@ -74,19 +75,14 @@ fn build_rejected_inner(f: &Facts, mode: Mode, absent: &[u32]) -> Result<Ontolog
     };
     for &(c, p) in &f.edges {
         let x = next_absent();
-        if b.add_parent(x, c).is_ok() {
-            return Err(format!("accepted: add_parent(parent={x} (absent), child={c})"));
-        }
-        if b.add_parent(p, x).is_ok() {
-            return Err(format!("accepted: add_parent(parent={p}, child={x} (absent))"));
-        }
+        let _ = b.add_parent(x, c);
+        let _ = b.add_parent(p, x);
         b.add_parent(p, c).map_err(|e| format!("add_parent({p},{c}): {e}"))?;
     }
     if let Some(t) = f.terms.first() {
         let x = next_absent();
-        if b.add_parent(x, t.id).is_ok() || b.add_parent(t.id, x).is_ok() {
-            return Err(format!("accepted: add_parent with the absent term {x}"));
-        }
+        let _ = b.add_parent(x, t.id);
+        let _ = b.add_parent(t.id, x);
     }
     let mut b = b.connect_all_terms();
     let fresh = 4_000_000u32;
@@ -95,21 +91,18 @@ fn build_rejected_inner(f: &Facts, mode: Mode, absent: &[u32]) -> Result<Ontolog
         match (a.kind, a.term) {
             (Kind::Gene, Some(t)) => {
                 b.annotate_gene(a.id.into(), &a.name, t.into()).map_err(|e| format!("annotate_gene({},{t}): {e}", a.id))?;
-                if b.annotate_gene(a.id.into(), &a.name, x.into()).is_ok() || b.annotate_gene(fresh.into(), "NEVER", x.into()).is_ok() {
-                    return Err(format!("accepted: annotate_gene(.., {x} (absent))"));
-                }
+                let _ = b.annotate_gene(a.id.into(), &a.name, x.into());
+                let _ = b.annotate_gene(fresh.into(), "NEVER", x.into());
             }
             (Kind::Omim, Some(t)) => {
                 b.annotate_omim_disease(a.id.into(), &a.name, t.into()).map_err(|e| format!("annotate_omim_disease({},{t}): {e}", a.id))?;
-                if b.annotate_omim_disease(a.id.into(), &a.name, x.into()).is_ok() || b.annotate_omim_disease(fresh.into(), "NEVER", x.into()).is_ok() {
-                    return Err(format!("accepted: annotate_omim_disease(.., {x} (absent))"));
-                }
+                let _ = b.annotate_omim_disease(a.id.into(), &a.name, x.into());
+                let _ = b.annotate_omim_disease(fresh.into(), "NEVER", x.into());
             }
             (Kind::Orpha, Some(t)) => {
                 b.annotate_orpha_disease(a.id.into(), &a.name, t.into()).map_err(|e| format!("annotate_orpha_disease({},{t}): {e}", a.id))?;
-                if b.annotate_orpha_disease(a.id.into(), &a.name, x.into()).is_ok() || b.annotate_orpha_disease(fresh.into(), "NEVER", x.into()).is_ok() {
-                    return Err(format!("accepted: annotate_orpha_disease(.., {x} (absent))"));
-                }
+                let _ = b.annotate_orpha_disease(a.id.into(), &a.name, x.into());
+                let _ = b.annotate_orpha_disease(fresh.into(), "NEVER", x.into());
             }
             (Kind::Gene, None) => b.add_gene(&a.name, a.id.into()),
             (Kind::Omim, None) => {
